@@ -93,6 +93,7 @@ type State struct {
 	Dead     bool
 	Trace    []string
 	Fresh    map[*Term]bool // refs allocated on this path since top-level entry
+	ReadLog  *[]string      // when set: heap classes read (footprint check of opaque predicates)
 	Written  map[string]bool
 	HavRepo  bool     // a havoc of repo classes happened: untouched classes are no longer the entry heap
 	HavExt   bool     // same for non-repo classes
@@ -216,6 +217,9 @@ func heapSort(dims int, comp *Sort) *Sort {
 var classSorts = map[string]*Sort{}
 
 func (st *State) heapGet(class string, sort *Sort) *Term {
+	if st.ReadLog != nil {
+		*st.ReadLog = append(*st.ReadLog, class)
+	}
 	if t, ok := st.Heap[class]; ok {
 		return t
 	}
@@ -238,6 +242,11 @@ var globalSpecs *Specs
 func preservedClass(class string) bool {
 	if globalSpecs == nil {
 		return false
+	}
+	for c := range globalSpecs.ImmutableElems {
+		if class == c || strings.HasPrefix(class, c+"@") {
+			return true
+		}
 	}
 	for tn, ts := range globalSpecs.Types {
 		for f := range ts.Immutable {
